@@ -9,6 +9,7 @@ import (
 	"sort"
 	"strings"
 	"time"
+	"unicode/utf8"
 
 	"go.flow.arcalot.io/engine/internal/builtinfunctions"
 	"go.flow.arcalot.io/engine/internal/verif/vrt"
@@ -368,6 +369,16 @@ func c18Laws(name string, args []any, val any, add func(clause, key, detail stri
 	case "splitString":
 		s, sep := args[0].(string), args[1].(string)
 		parts, _ := val.([]string)
+		if sep == "" && utf8.ValidString(s) {
+			// the empty separator lies between any two characters: the parts are the characters
+			var want []string
+			for _, r := range s {
+				want = append(want, string(r))
+			}
+			if strings.Join(parts, "\x00") != strings.Join(want, "\x00") || len(parts) != len(want) {
+				add("law-split", "empty-separator", fmt.Sprintf("splitString(%q,\"\") = %q, expected the characters %q", s, parts, want))
+			}
+		}
 		if sep != "" {
 			if strings.Join(parts, sep) != s {
 				add("law-split", "join", fmt.Sprintf("joining splitString(%q,%q)=%q does not give the input back", s, sep, parts))
